@@ -115,3 +115,16 @@ reg(Spec(
 ))
 
 sshd("C06")
+
+reg(Spec(
+    "C10", "Props/C10.v", harness="pipeline", race=True,
+    args_quick=["-n", "60"],
+    args_thorough=["-n", "1500"],
+    args_search=["-n", "400"],
+    assumptions=[
+        "A-append: one Write call per event and no interleaving of single writes on the O_APPEND output file (kernel/encoding-json behaviour): observed by recording every Write call, not proved",
+        "the hand-off happens only after the UserLogin was written (wf_run): this is C05's theorem about the sshd processor",
+        "correlator calls are atomic (C03); the tracker component of a pipeline run is the sequential correlator on the run's own history",
+    ],
+    modelled=["cmd/namedpipe.go wiring (one event writer, unbuffered logins channel)", "order of write and hand-off in processors/sshd", "sessiontracker (shared model)"],
+))
